@@ -18,7 +18,8 @@ def run(c):
     c.rule = ("random histories of 15-70 requests against the REAL metadata.DBV2 with random budgets (max 1..8|1000, step 1|7|60|3600 s, bonus 0|1|2|10, "
               "global budget 0|2|5|10^6) and a scripted clock (no move, < 1 step, 1-3 steps, hundreds of steps, backwards, around and beyond 2^32): "
               "get-or-create over 1-4 metrics and 4-40 keys, PutMapping (used/unused keys and ids, ids <= 0), batched delete (present, absent, duplicate ids), "
-              "ResetFlood (<=0, 1, around max, 9999..20000), by-value/by-id/GetNewMappings reads, state dumps; every 6th case is a pure stream of 60 "
+              "ResetFlood (<=0, 1, around max, 9999..20000), by-value/by-id/GetNewMappings reads, orderly restarts (Close + OpenDB on the same files: "
+              "lastMappingIDToInsert starts from 0), state dumps; every 6th case is a pure stream of 60 "
               "calcBudget + roundTime calls at the boundaries (old around 0/max, unsigned wrap of now-last). Non-trivial = a history with a flood-limit "
               "error after the global budget was exhausted, or with a deletion; distinct by op-sequence hash")
     c.assumptions += [
@@ -28,7 +29,7 @@ def run(c):
         "for a clock that moves backwards the code's unsigned subtraction refills the budget to maxBudget and the oracle allows exactly that",
         "ids stay below 2^31 (the int32 truncation of SQLite rowids is not modelled); keys are short (GetNewMappings byte limit not modelled)",
     ]
-    c.prove("SH.Props.C19", extra_files=["SH/Model/Meta.lean"])
+    c.prove("SH.Props.C19", extra_files=["SH/Model/Meta.lean", "SH/Lemmas/MetaFlood.lean"])
     drv = c.driver(DRIVER)
     binary = c.go_build(HARNESS, name="verif-c19")
     if binary and drv:
@@ -83,12 +84,19 @@ META = {
                   "all request histories and clocks) + op-by-op differential correspondence with the real DBV2 + direct token-bucket oracle on the real replies"),
     "text": ("Kernel-checked for every history: the mapping table is a bijection (ids and keys unique); get-or-create of a mapped key returns its id and "
              "changes nothing; only put/delete touch an existing pair; ids handed out by get-or-create are fresh (greater than every id ever present) so "
-             "deleted ids are never reused; with the flood limit in force every successful creation consumes one unit of a potential that is refilled by "
-             "bonus per elapsed step and capped by maxBudget, hence #creations <= max(maxBudget, budget at start) + bonus*(elapsed steps) for every window "
-             "under a non-decreasing clock, and a request with no budget left answers flood-limit and changes nothing."),
-    "note": ("Trusted: Lean kernel, SQLite, model<->code correspondence (quick 400, thorough 12000 histories). Observed and reported, not alarmed on: "
-             "ResetFlood stores the unrounded time, so a reset to a value <= maxBudget is undone (budget back to maxBudget-1) by the next creation in the "
-             "same step through the unsigned wrap of now-last; a clock moving backwards refills the budget the same way; ResetFlood's 'before' is read for "
-             "the literal metric \"abc2\"."),
+             "deleted ids are never reused. FLOOD BOUND, full strength (flood_bound): for every span of every mixed history with restarts (get-or-create for any "
+             "metrics/keys, put, delete, reset-flood of other metrics, entity saves, reopen) that starts with the global budget exhausted, and every metric m "
+             "whose requests see a non-decreasing clock in [t0,T], T<2^32: #created(m) <= max(maxBudget, remaining budget of m at the start) + bonus*(T/step - t0/step); "
+             "the remaining budget is <= max(maxBudget, 10000) in every reachable state (budget_bounded); 'exhausted' is preserved by every operation; frame lemma "
+             "hstep_row: only a reset of m or a successful creation for m writes m's row, the latter as exactly one calcBudget attempt; a request with no budget "
+             "left answers flood-limit and changes nothing (beyond_budget_is_flood_error)."),
+    "note": ("Trusted: Lean kernel, SQLite, model<->code correspondence (quick 400, thorough 12000 histories + corpus). Hypotheses of flood_bound, each shown necessary "
+             "by a kernel-checked witness: no reset of m inside the span; non-decreasing clock (backwards_clock_breaks_bound: the uint32 subtraction now-lastTimeUpdate "
+             "wraps and refills the budget to maxBudget-1, wrap_refills states exactly when); stepSec>=1, bonus>=0, maxBudget>=1 (zero_budget_creates). The bound uses "
+             "max(maxBudget, budget) rather than the budget itself because ResetFlood stores the UNROUNDED time: after a reset to a value <= maxBudget the next creation "
+             "in the same step wraps as well (observation 1 in Props/C19, corpus/C19/reset-then-create-same-step.ops); still within the property as read here. "
+             "Restart is modelled (reopen: lastMappingIDToInsert := 0, so the first creation after a restart is flood-limited even inside the global budget: "
+             "corpus/C19/reopen-drops-global-budget-exemption.ops) and exercised by the correspondence. flood_bound_partial (single-row bucket) is kept. "
+             "Not modelled: int32 truncation of ids >= 2^31, GetNewMappings byte limit, crashes (C17)."),
     "design_ref": "DESIGN.md §6 C19",
 }
